@@ -519,10 +519,12 @@ Definition admissible_b (v : nview) (ps : list pod) : bool :=
 (* ---- expected daemons: a daemon MAY run on the node when some labelling the node can get
    satisfies its selector and one of its required terms and its taints are tolerated (over-approximation
    per key) ---- *)
+(* a label whose requirement is a complement (NotIn / Exists / bounds) is resolved by the provider or, for a custom
+   key, by Karpenter to a decimal numeral inside the bounds: only canonical numerals can be hit by an `In` *)
 Definition some_value_b (e : req) (o : oper) (vs : list string) : bool :=
   if compl e then
     match o with
-    | In => existsb (has e) vs
+    | In => existsb (fun v => has e v && match dec_int v with Some _ => true | None => false end) vs
     | NotIn => true
     | Exists => true
     | DoesNotExist => false
